@@ -30,7 +30,9 @@ META = {
             "pest_vm before vs after every real pass on all short inputs, Spec before vs after, VM vs Spec on the unroll/restore streams. NOT theorems: "
             "that `optimize` returns normally on every valid grammar (proved for rotate/factor/unroll with reader-accepted counts only), and the link "
             "exec . vm_expr = Spec (that is C01); the restorer clause is therefore stated operationally."
-            " After a broken proof obligation or structural correspondence with no input found, an escalated search (real VM before vs after each real pass, no model involved) runs on the differing grammars with inputs derived from their literals (case variants, prefixes, concatenations), on mutated variants of them and on more generated rule sets.",
+            " After a broken proof obligation or structural correspondence with no input found, an escalated search (real VM before vs after each real pass, no model of a pass involved) runs on the differing grammars, entry rule of the type it has, with inputs derived from their literals (case variants, prefixes, concatenations), on the same grammars with WHITESPACE / COMMENT switched on, on mutated variants of them and on more generated rule sets."
+            " The known class is decided by the Coq predicates alone, never by what the real list pass does: a before/after difference of the list pass (or of the pipeline) counts as the known finding only when the rewrite of coq/Opt/List.v fires on the rules the pass was given (lister_applies / lister_class, extracted, evaluated by the runner on every such difference) and, when the real pass did anything else than that rewrite, only on inputs on which the known rewrite alone changes the result as well."
+            " A normal or silent entry rule (no atomicity of its own) is run from a non-atomic and from a compound-atomic caller, a silent one inside a normal caller whose pair carries its span; the Spec before/after comparison includes the end of the match.",
     "note": "Trusted: Coq kernel; extraction (ExtrOcamlBasic only); harness/runner/driver; HashMap<String,_> modelled as last-binding-wins "
             "association list; Rust String = valid UTF-8 byte list; stack overflow of populate_choices on cyclic first alternatives modelled as "
             "abnormal termination (None).",
@@ -109,11 +111,14 @@ def grammar_of_case(case):
     return case[i + 3:] if i >= 0 else ""
 
 
-def escalated_search(builds, grammars, seed, tier, maxlen):
+def escalated_search(builds, grammars, seed, tier, maxlen, runner, flags):
     """Only after a proof obligation or the structural correspondence broke and the ordinary streams found no failing input: the real VM
     before vs after every real pass (no model involved) on (1) the rule sets on which the real pass and coq/Opt differ, with inputs derived
-    from their own literals (each literal, its case variants, its proper prefixes, concatenations), (2) variants of those rule sets
-    (harness `mutate`), (3) more rule sets of the `sem` generator.  Returns (CONTRACT lines with label, coverage record)."""
+    from their own literals (each literal, its case variants, its proper prefixes, concatenations), with the entry rule of the type it has
+    (a normal / silent entry rule is run from a non-atomic and from an atomic caller), (2) the same rule sets with WHITESPACE / COMMENT
+    switched on, (3) variants of those rule sets (harness `mutate`), (4) more rule sets of the `sem` generator.  The CONTRACT lines pass
+    through the runner only for the membership test of the known lister class (extracted Coq predicate); no model of a pass is involved.
+    Returns (CONTRACT lines with label, coverage record)."""
     import tempfile
     t0 = time.time()
     cap, nvar, nrand, tmo = (64, 40, 80, 120) if tier == "quick" else (400, 150, 600, 1200)
@@ -131,7 +136,7 @@ def escalated_search(builds, grammars, seed, tier, maxlen):
             f = os.path.join(tmp, "%s-%d.txt" % (label, i))
             with open(f, "w") as fh:
                 fh.write("\n".join(part) + "\n")
-            jobs.append((label, "ulimit -v 6000000; timeout %d %s search %s %d %d %d %d" % (tmo, hbin, f, seed * 1000 + 500 + i, nvar, nrand, maxlen)))
+            jobs.append((label, "ulimit -v 6000000; timeout %d %s search %s %d %d %d %d | %s %s" % (tmo, hbin, f, seed * 1000 + 500 + i, nvar, nrand, maxlen, runner, flags[label])))
     cov["shards"] = len(jobs)
     outs = run_pipeline([j[1] for j in jobs], timeout=tmo + 30)
     lines, failed = [], 0
@@ -139,7 +144,7 @@ def escalated_search(builds, grammars, seed, tier, maxlen):
         if rc != 0:
             failed += 1          # a shard that ran out of time or memory still contributes what it printed
         m, st, other = parse_runner_output(out)
-        for k in ("given", "skipped", "variants", "random", "hits_given", "hits_variant", "hits_random", "inputs", "vm_runs"):
+        for k in ("given", "skipped", "not_tried", "trivia_variants", "variants", "random", "hits_given", "hits_trivia", "hits_variant", "hits_random", "inputs", "vm_runs", "lister_reclassified"):
             if isinstance(st.get(k), int):
                 cov[k] = cov.get(k, 0) + st[k]
         lines += [(label, l) for l in other if l.startswith("CONTRACT\t")]
@@ -275,7 +280,7 @@ def run(tier, seed, replay=None):
         log("C05: %s and the ordinary streams found no failing input: escalated search (real VM before/after every real pass on %d rule sets on which "
             "pass and model differ, inputs derived from their literals; variants of them; more generated rule sets)" % (
                 "the structural correspondence broke" if model_m else "a proof obligation broke", sum(len(set(v)) for v in per_label.values())))
-        elines, search_cov = escalated_search(builds, per_label, seed, tier, maxlen)
+        elines, search_cov = escalated_search(builds, per_label, seed, tier, maxlen, runner, flags)
         search_cov["reason"] = "structural correspondence broke" if model_m else "proof obligation broke"
         escalated = set(l for label, l in elines)
         lines += elines
@@ -336,7 +341,9 @@ def run(tier, seed, replay=None):
         "distinct_nontrivial": stats.get("distinct_nontrivial", 0),
         "rule": "generated rule sets (3-5 rules; shapes per pass: left/right/mixed nested sequences and choices; `(!(alternatives) ~ ANY)*` with string, rule-name "
                 "(inlinable or not), empty-string and non-string alternatives in atomic and other rules plus near misses; the four bounded repetitions with counts "
-                "0-3 and u32::MAX, e+; adjacent Str/Insens in every association; the three factor shapes with equal/unequal heads; the lister shape; stack "
+                "0-3 and u32::MAX, e+; adjacent Str/Insens in every association; the three factor shapes with equal/unequal heads; the lister shape alone and followed "
+                "by a tail (optional separator, separator | other, EOI, any expression; nested left as written or right as rotated); entry rules of all five "
+                "types (silent included), WHITESPACE in a third and COMMENT in a ninth of the rule sets; stack "
                 "operations under choices/optionals/repetitions/tags/rule references incl. cyclic references; plus gram::gen_grammar). Structural: every pass on the "
                 "raw AST and in pipeline order, to_optimized with/without restore_on_err, optimize; default features and grammar-extras. Property oracle: real VM "
                 "before/after each pass on all inputs of length <= %d over the grammar's alphabet, all inputs of length <= 3 over that alphabet plus the case-swapped "
@@ -356,6 +363,8 @@ def run(tier, seed, replay=None):
         "vm_runs": stats.get("vm_runs", 0), "spec_cases": stats.get("spec_cases", 0), "spec_undecided": stats.get("spec_undecided", 0),
         "lister_class_cases": lister_cases, "panics_agree": stats.get("panics_agree", 0),
         "escalated_search": search_cov,
+        "lister_class_decided_by": "extracted lister_applies / lister_class on every before/after difference of pass list / optimize; harness lines taken out of the class by the runner: %d" % stats.get("lister_reclassified", 0),
+        "entry_contexts": "non-silent r0: from the top level; normal and silent r0 also from `${ r0 }`; silent r0 inside `{ r0 }` (span of the match)",
     })
     res.assumptions = ["inputs of the semantic runs: all strings up to the length bound over {x, y, space|z, e-acute}, short strings with their upper-case forms, and "
                        "a bounded sample of concatenations of the grammar's literals, their case variants and prefixes; the theorems are for arbitrary inputs",
